@@ -693,6 +693,9 @@ func (sc *c07Scn) op(f []string) {
 				sc.r.Count("outside-subset.modes-agree")
 			} else {
 				sc.r.Count("outside-subset.modes-differ." + c07OpKind(f))
+				if os.Getenv("C07_DEBUG") != "" {
+					sc.r.Note("differ %s: timing %s emu %s", strings.Join(f, " "), ans, sh)
+				}
 			}
 		}
 		if f[0] == "w" || f[0] == "wb" {
